@@ -716,10 +716,13 @@ class BrownianInterval(brownian_base.BaseBrownian, _Interval):
             start = interval._start
             end = interval._end
             if end - start > piece_length:
-                midway = (end + start) / 2
-                interval._loc(start, midway)
-                stack.append(interval._right_child)
-                stack.append(interval._left_child)
+                midway = self._round((end + start) / 2)
+                # (With tol > 0 the quantised midpoint of an interval one resolution step long is one of its end
+                # points: such an interval cannot be refined any further.)
+                if start < midway < end:
+                    interval._loc(start, midway)
+                    stack.append(interval._right_child)
+                    stack.append(interval._left_child)
 
     def __repr__(self):
         if self._dt is None:
